@@ -247,8 +247,13 @@ impl<M: GuestAddressSpace> VringState<M> {
 
     /// Read event from the kick `EventFd`.
     fn read_kick(&self) -> io::Result<bool> {
-        if let Some(kick) = &self.kick {
-            kick.consume()?;
+        // Only consume the kick when the vring is going to be processed: a kick that races with
+        // the vring being disabled or stopped must stay pending in its descriptor, so that it is
+        // delivered once the vring is enabled or started again instead of being lost.
+        if self.enabled && self.queue.ready() {
+            if let Some(kick) = &self.kick {
+                kick.consume()?;
+            }
         }
 
         Ok(self.enabled)
